@@ -1192,7 +1192,8 @@ func (p *PairV2) orderSellLoadToIndex(index int) *Limit {
 	} else {
 		num := index
 		for {
-			orders = append(orders, p.loadSellOrders(p, fromOrder, num+1)...)
+			page := p.loadSellOrders(p, fromOrder, num+1)
+			orders = append(orders, page...)
 			num = 0
 			if p.hasUnsortedSellOrders() || p.hasDeletedSellOrders() {
 				orders, num = p.updateDirtyOrders(orders, true)
@@ -1203,10 +1204,10 @@ func (p *PairV2) orderSellLoadToIndex(index int) *Limit {
 			lenOrders := len(orders)
 			if lenOrders != 0 && orders[lenOrders-1] != 0 {
 				fromOrder = p.order(orders[lenOrders-1])
-			} else if loaded := p.loadedSellOrderIDs(); lenOrders == 0 && len(loaded) != 0 && loaded[len(loaded)-1] != 0 {
+			} else if lenOrders == 0 && len(page) != 0 && page[len(page)-1] != 0 {
 				// every order paged in so far has been removed in this block:
 				// keep paging after the last one instead of reporting an empty book
-				fromOrder = p.order(loaded[len(loaded)-1])
+				fromOrder = p.order(page[len(page)-1])
 				if fromOrder == nil {
 					break
 				}
